@@ -1029,9 +1029,23 @@ def check_request_core(rep, rule, rule_kw=None):
         return
     f = fdefs[0]
     cfg = CFG(f)
+    # the global names of the generated function, by role: what the environment binds to the endpoint chain, the render
+    # chain and werkzeug's BaseResponse
+    env = sink_arg('env', 2)
+    envmap = {}
+    if isinstance(env, codegen.SDict) and env.comp is None:
+        envmap = dict((k, v.text if isinstance(v, codegen.Ex) else None) for k, v in env.items.items())
+    ep_name = ([k for k, v in envmap.items() if v == ps[0]] + ['endpoint'])[0]
+    rn_name = ([k for k, v in envmap.items() if v == ps[1]] + ['render'])[0]
+    br_name = 'BaseResponse'
+    for k, v in envmap.items():
+        if v is not None and v.isidentifier() and v not in te.env:
+            kind_, mm_, obj_ = repo.resolve(core, v)
+            if kind_ == 'class' and obj_.name == 'BaseResponse':
+                br_name = k
     calls = [n for n in ast.walk(f) if isinstance(n, ast.Call)]
-    ep_calls = [c for c in calls if norm(c.func) == 'endpoint']
-    rn_calls = [c for c in calls if norm(c.func) == 'render']
+    ep_calls = [c for c in calls if norm(c.func) == ep_name]
+    rn_calls = [c for c in calls if norm(c.func) == rn_name]
     parents = {}
     for p in ast.walk(f):
         for ch in ast.iter_child_nodes(p):
@@ -1055,7 +1069,7 @@ def check_request_core(rep, rule, rule_kw=None):
     rep.check(rule, fkey(fi, 'endpoint first'), ok, 'the endpoint call dominates render and the return' if ok else
               'render or the return can be reached without calling endpoint', core, cc)
     is_resp = lambda t: isinstance(t, ast.Call) and norm(t.func) == 'isinstance' and len(t.args) == 2 and \
-        norm(t.args[0]) == 'context' and norm(t.args[1]) == 'BaseResponse'
+        norm(t.args[0]) == 'context' and norm(t.args[1]) == br_name
     ok = len(rn_calls) == 1
     if ok:
         cs = cfg.conds_at_stmt(stmt_of_(rn_calls[0]))
@@ -1076,9 +1090,9 @@ def check_request_core(rep, rule, rule_kw=None):
             t_false = any(is_resp(t) and p is False for t, p in scs)
             if src == 'context' and not t_true:
                 good = False
-            elif src.startswith('render(') and not t_false:
+            elif src.startswith(rn_name + '(') and not t_false:
                 good = False
-            elif src not in ('context',) and not src.startswith('render('):
+            elif src not in ('context',) and not src.startswith(rn_name + '('):
                 good = False
     rep.check(rule, fkey(fi, 'returns'), good,
               'returns the endpoint result when it is a Response, else the render result, unmodified' if good else
@@ -1108,15 +1122,16 @@ def check_request_core(rep, rule, rule_kw=None):
     ok = defargs and all(isinstance(h, Sym) and h.kind == 'join' and norm(h.iter) == ps[2] for h in defargs) and not f.args.defaults
     rep.check(rule_kw, fkey(fi, 'def parameters'), ok, 'process_request takes exactly %s' % ps[2] if ok else
               'process_request parameters are not %s' % ps[2], core, cc)
-    # environment
-    env = sink_arg('env', 2)
+    # environment: exactly the three names the generated function reads as globals
     ok = isinstance(env, codegen.SDict) and env.comp is None
     if ok:
-        m = dict((k, v.text if isinstance(v, codegen.Ex) else None) for k, v in env.items.items())
-        ok = m.get('endpoint') == ps[0] and m.get('render') == ps[1] and m.get('BaseResponse') == 'BaseResponse' and \
-            'BaseResponse' not in te.env
+        m = envmap
+        free = set(n.id for n in ast.walk(f) if isinstance(n, ast.Name) and isinstance(n.ctx, ast.Load)) - \
+            set(a.arg for a in f.args.args) - set(n.id for n in ast.walk(f) if isinstance(n, ast.Name) and isinstance(n.ctx, ast.Store))
+        free = set(x for x in free if not x.startswith('__H') and x not in ('isinstance', 'True', 'False', 'None'))
+        ok = m.get(ep_name) == ps[0] and m.get(rn_name) == ps[1] and ep_name != rn_name and br_name in m and free <= set(m)
         if ok:
-            k, mm, obj = repo.resolve(core, 'BaseResponse')
+            k, mm, obj = repo.resolve(core, m[br_name]) if m[br_name] and m[br_name] not in te.env else (None, None, None)
             ok = k == 'class' and obj.name == 'BaseResponse' and obj.mod.name.startswith('werkzeug')
     rep.check(rule, fkey(fi, 'environment'), ok, "names endpoint/render/BaseResponse in the generated code are bound to the endpoint chain, the "
               "render chain and werkzeug's BaseResponse" if ok else 'the environment handed to compile_code mis-binds endpoint/render/BaseResponse',
